@@ -16,6 +16,9 @@ CMP = {ast.Eq: operator.eq, ast.NotEq: operator.ne, ast.Lt: operator.lt, ast.LtE
        ast.Is: operator.is_, ast.IsNot: operator.is_not}
 
 
+STR_METHODS = {"upper", "lower", "strip", "lstrip", "rstrip", "startswith", "endswith", "split", "ljust", "rjust", "replace", "find", "rfind", "isdigit", "isalpha"}
+
+
 class Struct:
     """Folded keyword-constructor call, e.g. Instruction(mnemonic=..., mode=Mode(...))."""
     def __init__(self, cls, args, kw, node=None):
@@ -106,6 +109,13 @@ def fold(node, env=None, ctors=()):
                     return list(r) if isinstance(r, range) else r
                 except Exception as e:
                     raise NotConst(str(e))
+            if isinstance(n.func, ast.Attribute) and n.func.attr in STR_METHODS and not n.keywords:
+                recv = f(n.func.value)
+                if isinstance(recv, str):
+                    try:
+                        return getattr(recv, n.func.attr)(*[f(a) for a in n.args])
+                    except Exception as e:
+                        raise NotConst(str(e))
             raise NotConst(fn)
         raise NotConst(type(n).__name__)
 
@@ -153,3 +163,39 @@ def module_env(repo):
                     env[k] = v
                     progress = True
     return env
+
+
+class Returned(Exception):
+    def __init__(self, value):
+        self.value = value
+
+
+def fold_body(stmts, env, ctors=()):
+    """evaluate straight-line arithmetic code (assignments, augmented assignments, if/else on foldable tests, return)
+    over a constant environment; returns the returned value.  Raises NotConst for anything else."""
+    env = dict(env)
+
+    def run(stmts):
+        for st in stmts:
+            if isinstance(st, ast.Expr) and isinstance(st.value, ast.Constant):
+                continue
+            if isinstance(st, ast.Assign) and len(st.targets) == 1 and isinstance(st.targets[0], (ast.Name, ast.Attribute)):
+                env[ast.unparse(st.targets[0])] = fold(st.value, env, ctors)
+            elif isinstance(st, ast.AugAssign) and isinstance(st.target, (ast.Name, ast.Attribute)) and type(st.op) in BIN:
+                k = ast.unparse(st.target)
+                if k not in env:
+                    raise NotConst(k)
+                env[k] = BIN[type(st.op)](env[k], fold(st.value, env, ctors))
+            elif isinstance(st, ast.If):
+                run(st.body if fold(st.test, env, ctors) else st.orelse)
+            elif isinstance(st, ast.Return):
+                raise Returned(fold(st.value, env, ctors) if st.value is not None else None)
+            elif isinstance(st, ast.Pass):
+                continue
+            else:
+                raise NotConst("statement " + type(st).__name__)
+    try:
+        run(stmts)
+    except Returned as r:
+        return r.value
+    return None
